@@ -1,5 +1,6 @@
 import Sop.Model.Cache
 import Sop.Lemmas.StoreInfoCache
+import Sop.Lemmas.RegistryGet
 /-! # C20 — caches never serve stale data
 
 `Sop.Model.Cache`: two processes (own L1 node MRU + L1 Handles) over one shared L2 and one folder; `get`
@@ -35,7 +36,23 @@ faults and interference per store and per pass as inputs) — section "store-inf
   the cache: the iteration completes, readers get the old count), `C20_storeinfo_failAfter_stale` (a full write that
   took effect and then reported failure: file new, cache old, and `undo` does not cover the failing store),
   `C20_storeinfo_undo_fault_not_restored` (a failing `undo` write leaves file and cache at the NEW count although
-  `Update` returned an error: coherent, not restored).  -/
+  `Update` returned an error: coherent, not restored).  
+Registry handles in L2 (`Sop.Model.RegistryGet`: `fs.registryOnDisk.Get` over several ids as separate steps — L2
+lookup per id, file read per missed id, `SetStruct` per handle read from the file — interleaved with a registry
+updater (`Update` / `UpdateNoLocks`: file first, then L2, step per write), evictions at any moment, any number of
+concurrent Gets) — section "registry Get" at the end:
+* `C20_regget_untainted_coherent`: after EVERY interleaving, for every id whose file record was never rewritten
+  between some Get's file read of that id and that Get's return (`taint i = false`), the L2 entry is absent, equal
+  to the file, or an updater stands between its file write and its `SetStruct` of that id.  Updates of ids a Get had
+  as L2 HITS are not restricted in any way: a Get never writes back what it did not read from the file
+  (`C20_regget_writes_only_fetched`, `C20_regget_set_is_fetched`).  `C20_regget_served_fresh`: with no updater in
+  flight a warm process is handed the file's handle.
+* what does NOT hold on the unchanged code: `C20_regget_miss_window` — an update landing between a Get's file read
+  of a MISSED id and its write-back leaves the pre-update handle in L2 with nothing in flight (finding C20-F4,
+  replayed on the real code); hence `C20_regget_counterexample : ¬ Statement_C20_regget`.
+* `C20_regget_wball_stale`: the variant that writes back everything it returns (hits included) installs a stale
+  handle on a history on which nothing is tainted, where the unchanged code ends fresh (`C20_regget_same_history_fresh`).
+-/
 namespace Sop.C20
 open Sop.Cache
 
@@ -638,5 +655,109 @@ example : ({ setErr := true } : Flt).clean = false ∧ ({ fastRead := true, full
     ({ fastRead := true, fullWrite := .before } : Flt).quiet = false := by decide
 
 end StoreInfo
+
+/-! ## registry Get: L2 handle entries under concurrent Gets and updates -/
+section RegistryGet
+open Sop.RegGet
+
+/-- Full strength: whenever no updater is in flight, what a warm process is handed equals the file. FALSE on the
+unchanged code (`C20_regget_counterexample`). -/
+def Statement_C20_regget : Prop :=
+  ∀ (n : Nat) (ops : List RegGet.Op) (i : Nat),
+    (RegGet.run (RegGet.init false n) ops).upd = none →
+    served (RegGet.run (RegGet.init false n) ops) i = (RegGet.run (RegGet.init false n) ops).disk i
+
+/-- The code as it is, every interleaving of Gets (any hit/miss pattern), updates and evictions: an id that was never
+rewritten inside the file-read → return window of a Get that MISSED it has an L2 entry that is absent, equal to the
+file, or about to be overwritten by the updater that has just written the file. -/
+theorem C20_regget_untainted_coherent (n : Nat) (ops : List RegGet.Op) (i : Nat)
+    (ht : (RegGet.run (RegGet.init false n) ops).taint i = false) :
+    (RegGet.run (RegGet.init false n) ops).l2 i = none ∨
+    (RegGet.run (RegGet.init false n) ops).l2 i = some ((RegGet.run (RegGet.init false n) ops).disk i) ∨
+    ∃ u, (RegGet.run (RegGet.init false n) ops).upd = some u ∧ i ∈ u.ltodo.map Prod.fst :=
+  (RegGet.inv_run (RegGet.inv_init n) ops).coh i ht
+
+/-- … so with no updater in flight (Gets may be, at any stage) a warm process is handed the file's handle. -/
+theorem C20_regget_served_fresh (n : Nat) (ops : List RegGet.Op) (i : Nat)
+    (hu : (RegGet.run (RegGet.init false n) ops).upd = none)
+    (ht : (RegGet.run (RegGet.init false n) ops).taint i = false) :
+    served (RegGet.run (RegGet.init false n) ops) i = (RegGet.run (RegGet.init false n) ops).disk i := by
+  rcases C20_regget_untainted_coherent n ops i ht with h | h | ⟨u, h, _⟩
+  · simp [served, h]
+  · simp [served, h]
+  · rw [hu] at h; cases h
+
+/-- In every reachable state the write-back queue of every Get holds only pairs it read from the file. -/
+theorem C20_regget_writes_only_fetched (n : Nat) (ops : List RegGet.Op) (g : Nat) (x : Nat × Nat)
+    (hx : x ∈ ((RegGet.run (RegGet.init false n) ops).gets g).wb) :
+    x ∈ ((RegGet.run (RegGet.init false n) ops).gets g).fetched :=
+  (RegGet.inv_run (RegGet.inv_init n) ops).wbsub g x hx
+
+/-- A Get step that writes L2 writes a pair this Get read from the file, and that value is the file's unless the id is
+tainted. -/
+theorem C20_regget_set_is_fetched {s : RegGet.St} (h : RegGet.Inv s) (g i v : Nat)
+    (ho : (RegGet.step s (.get g)).2 = .set i v) :
+    (i, v) ∈ (s.gets g).fetched ∧ (v = s.disk i ∨ s.taint i = true) := by
+  have key : (i, v) ∈ (s.gets g).wb := by
+    simp only [RegGet.step, getStep] at ho
+    split at ho
+    · cases ho
+    · split at ho
+      · split at ho <;> cases ho
+      · split at ho
+        · cases ho
+        · split at ho
+          · rename_i hwb
+            simp only [Out.set.injEq] at ho
+            rw [hwb, ← ho.1, ← ho.2]; simp
+          · cases ho
+  have hf := h.wbsub g _ key
+  exact ⟨hf, h.fetched g i v hf⟩
+
+/-- the miss window of the unchanged code: Get [0] misses, reads version 0 from the file; the updater writes version 1
+to the file and to L2 and is done; the Get writes version 0 back and returns. -/
+def missWindow : List RegGet.Op :=
+  [.evict 0, .getStart 0 [0], .get 0, .get 0, .updStart false [0], .upd, .upd, .upd, .get 0, .get 0]
+
+theorem C20_regget_miss_window :
+    RegGet.outs (RegGet.init false 1) missWindow =
+      [.ok, .ok, .miss 0, .disk 0, .ok, .wd 0 1, .wl 0 1, .done, .set 0 0, .ret [(0, 0)]] ∧
+    quiescent (RegGet.run (RegGet.init false 1) missWindow) = true ∧
+    (RegGet.run (RegGet.init false 1) missWindow).l2 0 = some 0 ∧
+    (RegGet.run (RegGet.init false 1) missWindow).disk 0 = 1 ∧
+    (RegGet.run (RegGet.init false 1) missWindow).taint 0 = true := by decide +kernel
+
+theorem C20_regget_counterexample : ¬ Statement_C20_regget := by
+  intro h
+  have := h 1 missWindow 0 (by decide +kernel)
+  revert this
+  decide +kernel
+
+/-- partial L2 hit: Get [0,1] hits 0, misses 1; the updater commits id 0 (file, L2, done); the Get reads 1 from the
+file, writes back, returns. -/
+def partialHit : List RegGet.Op :=
+  [.evict 1, .getStart 0 [0, 1], .get 0, .get 0, .updStart false [0], .upd, .upd, .upd,
+   .get 0, .get 0, .get 0, .get 0]
+
+/-- The write-back-everything variant installs the pre-commit handle of the HIT id; nothing is tainted. -/
+theorem C20_regget_wball_stale :
+    RegGet.outs (RegGet.init true 2) partialHit =
+      [.ok, .ok, .hit 0 0, .miss 1, .ok, .wd 0 1, .wl 0 1, .done, .disk 1, .set 0 0, .set 1 0, .ret [(0, 0), (1, 0)]] ∧
+    quiescent (RegGet.run (RegGet.init true 2) partialHit) = true ∧
+    (RegGet.run (RegGet.init true 2) partialHit).taint 0 = false ∧
+    (RegGet.run (RegGet.init true 2) partialHit).l2 0 = some 0 ∧
+    (RegGet.run (RegGet.init true 2) partialHit).disk 0 = 1 := by decide +kernel
+
+/-- The same history on the code as it is: L2 holds the committed handle (also: the hypothesis of
+`C20_regget_untainted_coherent` is satisfiable on a history with an update racing a multi-id Get). -/
+theorem C20_regget_same_history_fresh :
+    RegGet.outs (RegGet.init false 2) partialHit =
+      [.ok, .ok, .hit 0 0, .miss 1, .ok, .wd 0 1, .wl 0 1, .done, .disk 1, .set 1 0, .ret [(0, 0), (1, 0)], .idle] ∧
+    (RegGet.run (RegGet.init false 2) partialHit).taint 0 = false ∧
+    (RegGet.run (RegGet.init false 2) partialHit).taint 1 = false ∧
+    (RegGet.run (RegGet.init false 2) partialHit).l2 0 = some 1 ∧
+    (RegGet.run (RegGet.init false 2) partialHit).disk 0 = 1 := by decide +kernel
+
+end RegistryGet
 
 end Sop.C20
